@@ -305,6 +305,13 @@ def scenarios(chk):
                       "control": {"argv": READER_FMTS[fmt] + ["--ojson", "cat", "data." + fmt], "files": {"data." + fmt: data}},
                       "nontrivial": when > 1})
 
+    # ---- B2. prepipe command that fails (input could not be obtained) ------------------
+    for sub, flag, cmd in [("exit-nonzero-no-output", "--prepipe", "false"), ("command-not-found", "--prepipe", "no-such-command-xyz"),
+                           ("partial-output-then-exit-3", "--prepipe", 'sh -c "head -n 1; exit 3"'), ("prepipex-exit-nonzero", "--prepipex", "false")]:
+        S.append({"kind": "unreadable-input", "sub": "prepipe-" + sub, "argv": [flag, cmd, "cat", "in.dkvp"], "files": {"in.dkvp": small},
+                  "env": {"MLR_NO_SHELL": ""}, "no_variants": True,
+                  "control": {"argv": [flag, "cat" if flag == "--prepipex" else "cat", "cat", "in.dkvp"], "files": {"in.dkvp": small}, "expect_ids": _ids(recs)}})
+
     # ---- C. corrupt compressed input -------------------------------------------------
     raw = gen.dkvp(_recs(6000, 3)).encode()
     comp = {"gz": (gzip.compress(raw), "--gzin"), "bz2": (bz2.compress(raw), "--bz2in"), "z": (zlib.compress(raw), "--zin")}
